@@ -3,10 +3,13 @@
 Fault enumeration over a family of feature-covering seed documents
 (vf.gen.seeds13, object models): every dictionary entry / array element x every
 fault kind (typed replacements, self / missing / cyclic references, references
-to objects of other types, key removal, key duplication), every stream x payload
-faults (empty, truncations, bit flips, garbage, wrong /Length), and file-level
-truncation (every offset for two seeds, strided for the rest) and damaged
-startxref / xref rows.  Entry points: extract_text, list(extract_pages),
+to objects of other types, key removal, key duplication) -- the same for every
+entry of the trailer and of the encryption dictionary, which the builder writes;
+every stream x payload faults (empty, truncations, bit flips, garbage, wrong
+/Length); every token of every unfiltered text stream (page contents, forms,
+glyph procedures, ToUnicode CMaps) x {delete, duplicate, replace by 0 / name /
+string / [] / <<>>}; and file-level truncation (every offset for two seeds,
+strided for the rest) and damaged startxref / xref rows.  Entry points: extract_text, list(extract_pages),
 extract_text_to_fp(xml) (+ outline / page-label / destination traversal for
 the navigation seed).
 
@@ -21,6 +24,7 @@ import copy
 import io
 import os
 import random
+import re
 import shutil
 import sys
 import tempfile
@@ -35,13 +39,15 @@ LEVEL = "fault_enumeration"
 DESIGN_REF = "DESIGN.md#C13"
 TECHNIQUE = "runtime monitoring under systematic fault injection: outcome-class monitor + sys.monitoring step budget on every (seed, site, fault kind, entry point)"
 LEVEL_TEXT = (
-    'Fault enumeration: every dictionary entry / array element / stream / file offset of eleven feature-covering seed documents x every fault kind x every entry point is executed under an outcome monitor and a line-count budget (the quick tier is a 1/12 stride sample of the same enumeration, phase chosen by the seed). Right level: single structural faults of a fixed seed family are a finite space that can be enumerated completely; what is not covered is multi-fault damage and other seeds.'
+    'Fault enumeration: every dictionary entry / array element (objects, trailer, encryption dictionary) / stream / content-stream token / file offset of twelve feature-covering seed documents x every fault kind x every entry point is executed under an outcome monitor and a line-count budget (the quick tier is a 1/12 stride sample of the same enumeration, phase chosen by the seed). Right level: single structural faults of a fixed seed family are a finite space that can be enumerated completely; what is not covered is multi-fault damage and other seeds.'
 )
 RULE = (
-    "deterministic enumeration: seeds x fault sites (every dict entry / array element of every object, every stream, file "
+    "deterministic enumeration: seeds x fault sites (every dict entry / array element of every object, of the trailer and of the "
+    "encryption dictionary, every stream, every token of every unfiltered text stream, file "
     "offsets) x fault kinds (null true 0 -1 2^31 1.5 name string [] [0] {} new-stream self-ref missing-ref 2-cycle 3-cycle "
     "refs to catalog/page/font/content, remove key, duplicate key; stream: empty, cut 1/4 1/2 3/4 -1, 8 bit flips, garbage, "
-    "Length 0/short/long; file: truncation, startxref/xref-row damage) x entry points {extract_text, extract_pages, "
+    "Length 0/short/long; token: delete, duplicate, replace by 0 /Name (string) [] <<>>; file: truncation, startxref/xref-row "
+    "damage) x entry points {extract_text, extract_pages, "
     "extract_text_to_fp(xml)[, nav]}. quick = stride sample of the same enumeration (offset chosen by the seed). "
     "distinct = distinct damaged files; non-trivial = every case (each differs from its seed by exactly one fault)."
 )
@@ -50,17 +56,23 @@ ASSUMPTIONS = [
     "AssertionError is counted separately and tolerated, as in fuzzing/extract_text_fuzzer.py",
     "work is bounded when executed pdfminer source lines <= 20 x the undamaged seed's count for the same entry point + 200 000",
     "RLIMIT_AS 4 GiB turns runaway allocation into MemoryError",
+    "ImportError carrying pdfminer.image.PIL_ERROR_MESSAGE (optional Pillow dependency absent from the test environment) is counted "
+    "separately (outcome:optional_dependency) and is not a leak: it does not depend on the damage",
 ]
 SHARD_TIMEOUT = {"quick": 900, "thorough": 7200}
 ENTRIES = ["extract_text", "extract_pages", "xml"]
 
 
 def minimums(tier: str) -> Dict[str, int]:
+    # the enumeration is deterministic: thorough = 28 889 damaged files / 93 542 runs, quick = 1/12 of it (any phase);
+    # the floors leave ~8-10 % room for changes of the builder's trailer / encryption dictionary
     if tier == "quick":
-        return {"evaluations": 9000, "distinct": 2500, "outcome:returned": 3000, "outcome:family": 300, "seen:seeds": 11,
-                "seen:kinds": 30}
-    return {"evaluations": 120000, "distinct": 35000, "outcome:returned": 40000, "outcome:family": 4000, "seen:seeds": 11,
-            "seen:kinds": 30}
+        return {"evaluations": 7000, "distinct": 2100, "outcome:returned": 5000, "outcome:family": 1200, "seen:seeds": 12,
+                "seen:kinds": 50, "fault_family:obj": 1350, "fault_family:trailer": 90, "fault_family:stream": 35,
+                "fault_family:content": 240, "fault_family:trunc": 380, "fault_family:file": 5}
+    return {"evaluations": 86000, "distinct": 26500, "outcome:returned": 65000, "outcome:family": 17000, "seen:seeds": 12,
+            "seen:kinds": 54, "fault_family:obj": 17000, "fault_family:trailer": 1250, "fault_family:stream": 540,
+            "fault_family:content": 3200, "fault_family:trunc": 5000, "fault_family:file": 90}
 
 
 # --------------------------------------------------------------------------
@@ -123,6 +135,42 @@ STRUCT_KINDS = ["remove", "duplicate"]
 STREAM_KINDS = ["s_empty", "s_cut14", "s_cut12", "s_cut34", "s_cut1", "s_flip0", "s_flip1", "s_flip2", "s_flip3", "s_flip4", "s_flip5",
                 "s_flip6", "s_flip7", "s_garbage", "s_len0", "s_lenshort", "s_lenlong"]
 
+# token-level faults inside unfiltered text streams (page contents, form XObjects, Type3 glyph procedures, ToUnicode CMaps):
+# every token x {delete, duplicate, replace by 0 / name / string / empty array / empty dictionary}: operators that lose an
+# operand, get one too many or one of another type; operators that disappear or run twice
+CONTENT_KINDS = ["c_del", "c_dup", "c_zero", "c_name", "c_string", "c_array", "c_dict"]
+_TOKEN = re.compile(rb"\((?:\\.|[^()\\])*\)|<<|>>|<[0-9A-Fa-f\s]*>|[\[\]{}]|/[^\s/\[\](){}<>%]*|[^\s/\[\](){}<>%]+")
+_TEXT_BYTES = frozenset(range(32, 127)) | {9, 10, 12, 13}
+
+
+def text_stream_ids(doc: Doc) -> List[int]:
+    """Streams whose payload is stored unfiltered and is text (so that a token of it can be addressed in the model)."""
+    out = []
+    for n in stream_ids(doc):
+        st = doc.objs[n]
+        if "Filter" in st.d or st.d.get("Type") == Name("Metadata") or not st.data:
+            continue
+        if all(b in _TEXT_BYTES for b in st.data):
+            out.append(n)
+    return out
+
+
+def content_tokens(data: bytes) -> List[Tuple[int, int]]:
+    return [m.span() for m in _TOKEN.finditer(data)]
+
+
+def apply_content_fault(doc: Doc, n: int, ti: int, kind: str) -> Optional[Doc]:
+    d2 = copy.deepcopy(doc)
+    st = d2.objs[n]
+    a, b = content_tokens(st.data)[ti]
+    tok = st.data[a:b]
+    rep = {"c_del": b"", "c_dup": tok + b" " + tok, "c_zero": b"0", "c_name": b"/Xyz", "c_string": b"(abc)", "c_array": b"[ ]",
+           "c_dict": b"<< >>"}[kind]
+    if rep == tok:
+        return None
+    st.data = st.data[:a] + rep + st.data[b:]
+    return d2
+
 
 def landmark(doc: Doc, what: str) -> Optional[int]:
     for n in sorted(doc.objs):
@@ -146,18 +194,22 @@ def apply_fault(doc: Doc, path: Tuple[Any, ...], kind: str) -> Optional[Doc]:
     """Return a damaged deep copy (None if the fault does not apply at this site)."""
     d2 = copy.deepcopy(doc)
     parent, key = _container(d2, path)
-    objid = path[0]
+    return d2 if _mutate(d2, parent, key, kind, path[0]) else None
+
+
+def _mutate(d2: Doc, parent: Any, key: Any, kind: str, objid: Optional[int]) -> bool:
+    """Apply one fault kind to parent[key] in place (helper objects go into d2.objs); False if it does not apply."""
     nxt = max(d2.objs) + 1
     if kind == "remove":
         if isinstance(parent, list):
             del parent[key]
         else:
             del parent[key]
-        return d2
+        return True
     if kind == "duplicate":
         if isinstance(parent, list):
             parent.insert(key, parent[key])
-            return d2
+            return True
         # the same key twice, the first occurrence with another value
         items = list(parent.items())
         parent.clear()
@@ -166,7 +218,7 @@ def apply_fault(doc: Doc, path: Tuple[Any, ...], kind: str) -> Optional[Doc]:
                 alt = Name(k) if isinstance(k, str) else k.b.decode("latin-1")
                 parent[alt] = 0 if not isinstance(v, int) else Name("Dup")
             parent[k] = v
-        return d2
+        return True
     if kind == "null":
         v: Any = None
     elif kind == "true":
@@ -193,6 +245,8 @@ def apply_fault(doc: Doc, path: Tuple[Any, ...], kind: str) -> Optional[Doc]:
         d2.objs[nxt] = Stream({}, b"0 0 m")
         v = Ref(nxt)
     elif kind == "ref_self":
+        if objid is None:
+            return False
         v = Ref(objid)
     elif kind == "ref_missing":
         v = Ref(nxt + 50)
@@ -208,15 +262,87 @@ def apply_fault(doc: Doc, path: Tuple[Any, ...], kind: str) -> Optional[Doc]:
     elif kind.startswith("ref_"):
         lm = landmark(d2, kind[4:])
         if lm is None:
-            return None
+            return False
         v = Ref(lm)
     else:
         raise ValueError(kind)
     cur = parent[key]
     if type(cur) is type(v) and cur == v:
-        return None     # not a change
+        return False     # not a change
     parent[key] = v
-    return d2
+    return True
+
+
+# --------------------------------------------------------------------------
+# the trailer dictionary and the encryption dictionary (written by the builder, not part of doc.objs)
+# --------------------------------------------------------------------------
+def _trailer_model(doc: Doc, opts: Dict[str, Any]) -> Dict[Any, Any]:
+    """The trailer as it is written: doc.trailer + the encryptor's /ID and /Encrypt (the dictionary itself, not the reference)."""
+    d2 = copy.deepcopy(doc)
+    tm = dict(d2.trailer)
+    enc = opts.get("encryptor")
+    if enc is not None:
+        extra = copy.deepcopy(enc).trailer_entries(d2)
+        tm.update(extra)
+        if isinstance(tm.get("Encrypt"), Ref):
+            tm["Encrypt"] = d2.objs[tm["Encrypt"].n]
+    return tm
+
+
+def trailer_sites(doc: Doc, opts: Dict[str, Any]) -> List[Tuple[Any, ...]]:
+    return list(walk_sites(_trailer_model(doc, opts), ("T",)))
+
+
+def _descend(root: Any, steps: Tuple[Any, ...]) -> Tuple[Any, Any]:
+    cur = root
+    for step in steps[:-1]:
+        cur = cur[_key(cur, step[1])] if step[0] == "k" else cur[step[1]]
+    last = steps[-1]
+    return (cur, _key(cur, last[1])) if last[0] == "k" else (cur, last[1])
+
+
+def apply_trailer_fault(doc: Doc, opts: Dict[str, Any], path: Tuple[Any, ...], kind: str) -> Optional[bytes]:
+    """Damaged file for a site inside the trailer / encryption dictionary (None if the fault does not apply)."""
+    d2 = copy.deepcopy(doc)
+    steps = path[1:]
+    inner = opts.get("encryptor")
+    try:
+        _key(d2.trailer, steps[0][1])
+        in_model = True
+    except KeyError:
+        in_model = False
+    if in_model:
+        parent, key = _descend(d2.trailer, steps)
+        return build(d2, opts) if _mutate(d2, parent, key, kind, None) else None
+    if inner is None:
+        return None
+    state = {"ok": False}
+
+    class Wrapped:
+        """the seed's encryptor with one fault applied to the entries it contributes to the trailer"""
+
+        def string(self, *a: Any) -> Any:
+            return inner.string(*a)
+
+        def stream(self, *a: Any) -> Any:
+            return inner.stream(*a)
+
+        def trailer_entries(self, building: Doc) -> Dict[str, Any]:
+            extra = inner.trailer_entries(building)
+            if len(steps) == 1:
+                parent, key = extra, _key(extra, steps[0][1])
+            else:
+                top = extra[_key(extra, steps[0][1])]
+                if isinstance(top, Ref):
+                    top = building.objs[top.n]
+                parent, key = _descend(top, steps[1:])
+            state["ok"] = _mutate(building, parent, key, kind, None)
+            return extra
+
+    o2 = dict(opts)
+    o2["encryptor"] = Wrapped()
+    data = build(d2, o2)
+    return data if state["ok"] else None
 
 
 def apply_stream_fault(doc: Doc, n: int, kind: str, rng: random.Random) -> Optional[Doc]:
@@ -317,6 +443,14 @@ def classify(entry: str, data: bytes, opts: Dict[str, Any], budget: int) -> Tupl
         return "recursion", "recursion:%s" % _where(e, recursion=True)
     except MemoryError as e:
         return "memory", "memory:%s" % _where(e)
+    except ImportError as e:
+        # pdfminer's own, documented report that the optional Pillow dependency (pdfminer.six[image]) is not installed in
+        # this environment: a property of the test rig, raised for well-formed images of the same kind as well.
+        from pdfminer.image import PIL_ERROR_MESSAGE
+
+        if str(e) == PIL_ERROR_MESSAGE:
+            return "optional_dependency", ""
+        return "leak", "leak:%s:%s" % (type(e).__name__, _where(e))
     except Exception as e:  # noqa: BLE001
         return "leak", "leak:%s:%s" % (type(e).__name__, _where(e))
 
@@ -367,6 +501,13 @@ def enumerate_cases(seed_name: str, doc: Doc, opts: Dict[str, Any]) -> List[Tupl
     for n in stream_ids(doc):
         for kind in STREAM_KINDS:
             cases.append(("stream", n, kind))
+    for n in text_stream_ids(doc):
+        for ti in range(len(content_tokens(doc.objs[n].data))):
+            for kind in CONTENT_KINDS:
+                cases.append(("content", (n, ti), kind))
+    for path in trailer_sites(doc, opts):
+        for kind in VALUE_KINDS + STRUCT_KINDS:
+            cases.append(("trailer", path, kind))
     data = build(doc, opts)
     full = seed_name in ("basic", "xrefstm")
     step = 1 if full else 7
@@ -390,6 +531,11 @@ def make_case(doc: Doc, opts: Dict[str, Any], case: Tuple[str, Any, str], base: 
         if kind.startswith("s_len"):
             return build(d2, opts)
         return build(d2, opts)
+    if fam == "trailer":
+        return apply_trailer_fault(doc, opts, tuple(tuple(x) if isinstance(x, list) else x for x in site), kind)
+    if fam == "content":
+        d2 = apply_content_fault(doc, site[0], site[1], kind)
+        return build(d2, opts) if d2 is not None else None
     if fam == "trunc":
         return base[:site]
     sx = base.rfind(b"startxref")
